@@ -18,6 +18,20 @@ NEEDS = {
  "C06-b4": "a dt assignment that leaves the record size unchanged (D=2.0: 1.0 -> 1.3), then a run with delays > 0",
  "C07-a4": "CumulativeTraceReducer built with a non-default tolerance and an observation with 0 < |h - target| <= tolerance",
  "C07-b4": "observe, clear(keepshape=True), then read or observe (the no-observation-yet flag is only re-armed by keepshape=False)",
+ "C08-a4": "MSTDPET with register_cell(..., tc_eligibility=X) different from the constructor value and a pre-triggered contribution",
+ "C08-b4": "trainer.eval(), then register_cell, then layer steps with spikes, then trainer.train() and training (monitors created in eval mode stay hooked)",
+ "C09-a4": "MSTDPET, a register_cell(lr_pre=...) override of opposite sign to the constructor's, reward passed as a Python scalar",
+ "C09-b4": "Accumulator.lowerbound(...) first, then any upperbound(...) call, then a depressing part and update()",
+ "C10-a4": "a non-default reduction (mean / amax) and at least two depressing parts for one parameter before the update",
+ "C10-b4": "lowerbound then upperbound on one accumulator (or the upper limit re-set mid-run), then a depressing contribution",
+ "C11-a4": "LinearHomeostasis with the reduction requested per cell, register_cell(..., batch_reduction=torch.sum), batch size > 1",
+ "C11-b4": "RecurrentSerial: run at one batch size, batchsz setters on all components, layer.clear(), run at the new size (stale feedback buffer)",
+ "C12-a4": "MaxRateClassifier restored into a copy.deepcopy of another classifier (the load hook closes over the original)",
+ "C12-b4": "two instances loading the same in-memory state dict (or B.load_state_dict(A.state_dict()) and both keep stepping): shared extras dict",
+ "C13-a4": "reconstrain on a record whose storage is an UninitializedBuffer / UninitializedParameter",
+ "C13-b4": "push, align(-k) (negative index stored as given), then a size-changing dt assignment, then a read",
+ "C14-a4": "DoubleExponentialCurrent configured through the dt / delay setter, then a delayed read (neg_current_ not enrolled as delayed)",
+ "C14-b4": "reducer constructed with inclusive=X, record-level inclusive flipped, then duration assigned (inclusive silently reverted)",
 }
 for k, v in NEEDS.items():
     mp = f"/verif/seeded/{k}/meta.json"
